@@ -141,9 +141,14 @@ package rule
 //@ func rule.getExitCode
 //@ modifies alloc
 //@ ensures[C06] isNil(result1) && strIsNum(exit, 0, true) ==> result0 == strIval(exit, 0)
+// an errno name is the number the errno table gives it, negated after a leading '-'
+//@ ensures[C06] isNil(result1) && !strIsNum(exit, 0, true) && (len(exit) == 0 || exit[0] != '-') ==> exit in auparse.AuditErrnoToNum && (0 <= auparse.AuditErrnoToNum[exit] && auparse.AuditErrnoToNum[exit] < 2147483648 ==> result0 == auparse.AuditErrnoToNum[exit])
+//@ ensures[C06] isNil(result1) && !strIsNum(exit, 0, true) && len(exit) >= 1 && exit[0] == '-' ==> exit[1:] in auparse.AuditErrnoToNum && (0 <= auparse.AuditErrnoToNum[exit[1:]] && auparse.AuditErrnoToNum[exit[1:]] < 2147483648 ==> result0 == 0 - auparse.AuditErrnoToNum[exit[1:]])
 //@ func rule.getAuditMsgType
 //@ modifies alloc
 //@ ensures[C06] isNil(result1) && strIsNum(msgType, 0, false) ==> result0 == strUval(msgType, 0)
+// a record type name is the number the parser's name table gives it
+//@ ensures[C06] isNil(result1) && !strIsNum(msgType, 0, false) && toUpper(msgType) in auparse.auditMessageNameToType ==> result0 == auparse.auditMessageNameToType[toUpper(msgType)]
 // file types by name, or a number.
 //@ spec isFiletypeName(n string) bool := n == "file" || n == "dir" || n == "socket" || n == "symlink" || n == "char" || n == "block" || n == "fifo"
 //@ func rule.getFiletype
